@@ -250,6 +250,22 @@ def run(ctx, rep):
     SE_ = 'server::state::entry::StateEntry'
     forms__.check_aggregates(ctx, rep, 'R11.n', {SE_ + '::new': {SE_: {k: k for k in ('index', 'term', 'leader_id', 'version', 'flags', 'timestamp', 'user_id', 'checksum', 'context', 'command')}}})
 
+    # ------------------------------------------------------------ R11.o the loader verifies what it read, with what it read
+    rep.rule('R11.o', 'the loader recomputes the checksum of an entry from the values it has just read from the file, all of them (nothing of the running server - its version, term or leader - enters: a journal written by another server version must load, and a changed byte of any header field must be noticed); every read of the journal is an exact read (read_exact / read_uNN), never a single `read` whose count may be short at a buffer boundary', floor=10, analysis='A9+A14')
+    import forms as forms_o
+    ck_ = forms_o.call_arg_forms(ctx, FILESTATE_LOAD, 'StateEntry::calculate_checksum', skip_self=False, cd=1)
+    if not ck_:
+        rep.anchor_lost('R11.o', 'calculate_checksum in load_entries')
+    for ln_, f_, b_ in ck_:
+        for k_, a_ in enumerate(forms_o._split_args(f_)):
+            ok_ = a_.startswith(('AsyncReadExt::read_u', 'BytesMut::freeze(')) and 'self.' not in a_
+            rep.ob('R11.o', FILESTATE_LOAD, 'checksum argument %d from the file' % k_, ok_, '%s:%s' % (b_.file, ln_), None if ok_ else
+                   'argument %d of calculate_checksum in the loader is `%s`: not a value read from the entry' % (k_, a_[:80]))
+    lb_o = ctx.fn_body(FILESTATE_LOAD)
+    reads_ = sorted({c.name.split('::')[-1] for c in lb_o.calls if is_user_call(c) and 'AsyncReadExt' in c.name})
+    ok_ = bool(reads_) and all(r_ == 'read_exact' or re.fullmatch(r'read_[ui]\d+(_le)?', r_) for r_ in reads_)
+    rep.ob('R11.o', FILESTATE_LOAD, 'exact reads only', ok_, None, ' '.join(reads_) if ok_ else 'the loader reads the journal with %s: a short read at a buffer boundary is taken for the whole field' % reads_)
+
 
 def apply_is_self_serialised(ctx):
     """FileState::apply owns a MutexGuard local that is created before the first counter access and not dropped before the last"""
